@@ -73,6 +73,16 @@ def main():
     m = slm_switch()
     if m:
         msgs.append(m)
+    if not msgs:
+        # through real Pulser sequences, labels not in sorted order (separate process: its own pulser objects)
+        import subprocess
+        q = subprocess.run([sys.executable, os.path.join(os.path.dirname(os.path.abspath(__file__)), "c02_labels.py")],
+                           capture_output=True, text=True, timeout=900, env=dict(os.environ, OMP_NUM_THREADS="1"))
+        out = [l for l in q.stdout.splitlines() if "conda" not in l.lower()]
+        if q.returncode == 1 and any(l.startswith("REPRODUCED:") for l in out):
+            msgs.append(" | ".join(l.strip() for l in out[-8:])[:1500])
+        else:
+            print("  sequence part: " + (out or ["(no output) " + q.stderr[-200:]])[-1])
     if msgs:
         print("REPRODUCED: " + msgs[0])
         for m in msgs[1:]:
